@@ -134,7 +134,7 @@ func evaluate(p *pg.Prog, vals []pg.Val, text string, vars []interface{}, number
 	// (2) no marker of any argument in the text
 	for i, v := range vals {
 		for _, m := range v.Markers {
-			if exec && p.Slots[i].Spec.Key != "" {
+			if exec && (p.Slots[i].Spec.Key == "LIMIT" || p.Slots[i].Spec.Key == "OFFSET") {
 				continue // LIMIT/OFFSET are never part of exec programs; defensive
 			}
 			if strings.Contains(text, m) {
